@@ -1,4 +1,4 @@
-import NimaVerif.Lemmas.ScopedFrame
+import NimaVerif.Lemmas.ScopedSingle
 /-!
 # C09 — scope selectors address exactly the intended let layer
 
@@ -188,6 +188,32 @@ theorem scoped_set_frame_partial (d : Doc) (k : Nat) (name : Text) (v : Node)
     d'.trailing = d.trailing :=
   scoped_set_frame d k name v hn hk hne hh hkn hl hplain hsep hok
 
+/-- "updates / inserts in `L_{n-k}`", at lookup level, for a one-segment name on a plain layer:
+    afterwards layer `n - k` binds the name to `v`, and its names are the old ones (the name
+    appended if it was not bound) — whatever other layers bind the same name to. -/
+theorem scoped_set_binds_in_layer (d : Doc) (k : Nat) (name seg : Text) (v : Node)
+    (hn : d.noTarget = none) (hk : 1 ≤ k) (hne : name ≠ []) (hh : name.head? ≠ some '@')
+    (hkn : k ≤ (collectScopeLayers d).length) {l : Layer}
+    (hl : (collectScopeLayers d)[(collectScopeLayers d).length - k]? = some l)
+    (hfmt : formatNPath currentAnchor name = .ok [seg]) (hplain : l.plain = true)
+    (hok : (setValue (atSigns k ++ name) (.one v) d).1 = .ok ()) :
+    ∃ l' b, (collectScopeLayers (setValue (atSigns k ++ name) (.one v) d).2)[
+        (collectScopeLayers d).length - k]? = some l' ∧
+      findBinding l'.scope seg = some b ∧ b.bindValue? = some v ∧
+      keysOf l'.scope =
+        if (findBinding l.scope seg).isSome then keysOf l.scope else keysOf l.scope ++ [seg] := by
+  obtain ⟨us, _, h1, h2, hres⟩ := scoped_set_core d k name v hn hk hne hh hkn true l.fpBind hl
+    (Or.inl rfl) (fun _ h => h) (fun _ => hplain)
+  obtain ⟨c1, _⟩ := hres hok
+  obtain ⟨S', s1, ⟨b, s2, s3⟩, s4⟩ := set_single_scratch d l v hfmt hplain (by rw [← h2]; exact hok)
+  have hS : applyAllNode us (layerAsSet d.next l) = S' := by
+    rw [h1, applyAll_scratch] at s1
+    simpa [scratchDoc] using s1
+  have hidx : (collectScopeLayers d).length - k < (collectScopeLayers d).length := by omega
+  refine ⟨{ applyAllLayer us l with scope := S'.setValues, order := S'.setOrder }, b, ?_, s2, s3, s4⟩
+  rw [c1, hS]
+  exact listSet_getElem?_self _ _ _ (by simpa using hidx)
+
 /-! ## 4. `set @name` with no layer: one layer is created — unless the path exists in the set -/
 
 /-- `n = 0`, `k = 1`, path not in the set: exactly one layer appears; its scope is the scratch
@@ -316,6 +342,49 @@ theorem scoped_rm_prunes_exactly (d : Doc) (k : Nat) (name : Text) (hn : d.noTar
          l'.bodyBefore = l.bodyBefore ∧ l'.bodyAfter = l.bodyAfter ∧ l'.afterLet = l.afterLet ∧
          d'.tBefore = d.tBefore ∧ d'.tAfter = d.tAfter)) :=
   scoped_rm_frame d k name hn hk hne hh hkn hl hsep hok
+
+/-- "removes from `L_{n-k}`", at lookup level, for a one-segment name: the scratch set of layer
+    `n - k` loses exactly the binding found under that name (so a name defined once is unbound
+    afterwards); if that was its last binding the layer is pruned (`scoped_rm_layer` says which
+    list remains). `DistinctItems` (decidable): the layer's bindings are distinct objects. -/
+theorem scoped_rm_unbinds_in_layer (d : Doc) (k : Nat) (name seg : Text)
+    (hn : d.noTarget = none) (hk : 1 ≤ k) (hne : name ≠ []) (hh : name.head? ≠ some '@')
+    (hkn : k ≤ (collectScopeLayers d).length) {l : Layer}
+    (hl : (collectScopeLayers d)[(collectScopeLayers d).length - k]? = some l)
+    (hfmt : formatNPath currentAnchor name = .ok [seg]) (hdist : DistinctItems l.scope = true)
+    (hok : (removeValue (atSigns k ++ name) d).1 = .ok ()) :
+    ∃ b l₁ l₂, l.scope = l₁ ++ b :: l₂ ∧ b.isBind = true ∧ b.bindName? = some seg ∧
+      (l₁ ++ l₂ ≠ [] →
+        ∃ l', (collectScopeLayers (removeValue (atSigns k ++ name) d).2)[
+            (collectScopeLayers d).length - k]? = some l' ∧ l'.scope = l₁ ++ l₂ ∧
+          ((keysOf l.scope).count seg ≤ 1 → findBinding l'.scope seg = none)) ∧
+      (l₁ ++ l₂ = [] →
+        (collectScopeLayers (removeValue (atSigns k ++ name) d).2).length =
+          (collectScopeLayers d).length - 1) := by
+  obtain ⟨us, _, h1, h2, hres⟩ := scoped_rm_core d k name hn hk hne hh hkn hl
+  obtain ⟨c1, c2, _⟩ := hres hok
+  obtain ⟨S', b, l₁, l₂, s1, s2, s3, s4, s5⟩ :=
+    rm_single_scratch d l hfmt hdist (by rw [← h2]; exact hok)
+  have hS : applyAllNode us (layerAsSet d.next l) = S' := by
+    rw [h1, applyAll_scratch] at s1
+    simpa [scratchDoc] using s1
+  have hidx : (collectScopeLayers d).length - k < (collectScopeLayers d).length := by omega
+  refine ⟨b, l₁, l₂, s2, s3, s4, fun hne' => ?_, fun he => ?_⟩
+  · have hne'' : (applyAllNode us (layerAsSet d.next l)).setValues ≠ [] := by rw [hS, s5]; exact hne'
+    obtain ⟨e1, _⟩ := c2 hne''
+    refine ⟨{ applyAllLayer us l with scope := S'.setValues, order := S'.setOrder }, ?_, s5, ?_⟩
+    · rw [e1, hS]
+      exact listSet_getElem?_self _ _ _ (by simpa using hidx)
+    · intro hu
+      apply findBinding_none_of_not_mem
+      simp only [s5]
+      rw [s2, keysOf_split l₁ l₂ s3 s4, List.count_append, List.count_cons_self] at hu
+      rw [keysOf_append, List.mem_append]
+      rintro (h | h)
+      · exact absurd (List.count_pos_iff.2 h) (by omega)
+      · exact absurd (List.count_pos_iff.2 h) (by omega)
+  · have he' : (applyAllNode us (layerAsSet d.next l)).setValues = [] := by rw [hS, s5]; exact he
+    rw [(c1 he').1, List.length_eraseIdx_of_lt (by simpa using hidx), List.length_map]
 
 /-! ## Non-vacuity: three layers, the name `x` in two of them -/
 
